@@ -62,15 +62,10 @@ def quantileLin (phi : Rat) (vs : List Rat) : Rat :=
     let b := s.getD (lo + 1) a
     a + (b - a) * (rank - (lo : Int))
 
-/-- square root rounded down to three decimals -/
-def sqrtMilli (x : Rat) : Rat :=
-  if x ≤ 0 then 0 else ((Nat.sqrt (x * 1000000).floor.toNat : Nat) : Int) / (1000 : Int)
-
 def oraclesX : Oracles := { oracles with
   jsonField := fun line p => ((tokens line).lookup (pathText p)).getD []
   reCaps := fun _ line => (tokens line).map (·.2)
-  quantile := quantileLin
-  sqrt := sqrtMilli }
+  quantile := quantileLin }
 
 def handle : List String → Option String
   | "c08semx" :: args => do
